@@ -88,7 +88,7 @@ FilesBeneath(fsys, d, fuel) ==
      \cup (IF fuel = 0 THEN {}
            ELSE UNION { { [via |-> c.p \o f.via, size |-> f.size] : f \in FilesBeneath(fsys, res(c), fuel - 1) }
                         : c \in { c \in kids : Node(fsys, res(c)).kind = "dir" } })
-DirSize(fsys, d) == SumSizes(FilesBeneath(fsys, d, 6))
+DirSize(fsys, d) == SumSizes(FilesBeneath(fsys, d, 64))
 
 (***************************************************************************)
 (* Connection state                                                        *)
@@ -233,7 +233,11 @@ HandleOpenFile(cs, fsys, req, views) ==
                   ELSE { Outcome(closed, fsys, OpenFail, FALSE) }
              ELSE IF t = NoPath THEN { Outcome(closed, fsys, OpenFail, FALSE) }
              ELSE LET n == Node(fsys, t) IN
-                  IF n.kind = "dir"
+                  IF n.kind = "file" /\ n.any     \* hostile content (C04): open may fail or yield anything readable; never a crash
+                  THEN { Outcome(closed, fsys, OpenFail, FALSE),
+                         Outcome([closed EXCEPT !.ro = [open |-> TRUE, byPath |-> FALSE, path |-> t, cid |-> "", size |-> PZero, undef |-> TRUE, viso |-> FALSE],
+                                                !.sect = DefaultCDSector], fsys, AnyResp, FALSE) }
+                  ELSE IF n.kind = "dir"
                   THEN { Outcome([closed EXCEPT !.ro = [open |-> TRUE, byPath |-> FALSE, path |-> t, cid |-> "", size |-> PZero, undef |-> TRUE, viso |-> FALSE],
                                                 !.sect = DefaultCDSector], fsys, AnyResp, FALSE) }
                   ELSE { Outcome([closed EXCEPT !.ro = [open |-> TRUE, byPath |-> TRUE, path |-> t, cid |-> n.vcid, size |-> n.vsize, undef |-> FALSE, viso |-> FALSE],
@@ -332,9 +336,9 @@ HandleReadCD(cs, fsys, req) ==
 Touch(fsys, p) == fsys   \* time stamps of changed nodes are re-read from the observed tree, not predicted
 
 NewFile(p) == [p |-> p, kind |-> "file", size |-> PZero, cid |-> "", vcid |-> "", vsize |-> PZero,
-               mtime |-> 0, ctime |-> 0, target |-> << >>, marks |-> << >>, unk |-> FALSE]
+               mtime |-> 0, ctime |-> 0, target |-> << >>, marks |-> << >>, unk |-> FALSE, any |-> FALSE]
 NewDir(p) == [p |-> p, kind |-> "dir", size |-> PZero, cid |-> "", vcid |-> "", vsize |-> PZero,
-              mtime |-> 0, ctime |-> 0, target |-> << >>, marks |-> << >>, unk |-> FALSE]
+              mtime |-> 0, ctime |-> 0, target |-> << >>, marks |-> << >>, unk |-> FALSE, any |-> FALSE]
 
 (* names no object can have (NUL inside, longer than 255 bytes): the harness *)
 (* lists those segments of the request's path in req.bad                    *)
@@ -435,8 +439,12 @@ HandleDirSize(cs, fsys, req) ==
 (* been refused anyway.                                                     *)
 (***************************************************************************)
 HandleTruncated(cs, fsys, req, aw) ==
-  IF req.of = "WRITE_FILE" /\ req.cut >= CommandLen /\ (~aw \/ ~cs.wo.open)
-  THEN { Outcome(cs, fsys, RNone, TRUE), Outcome(cs, fsys, Res4(-1), TRUE) }
+  IF req.of = "WRITE_FILE" /\ req.cut >= CommandLen
+  THEN IF ~aw \/ ~cs.wo.open
+       THEN { Outcome(cs, fsys, RNone, TRUE), Outcome(cs, fsys, Res4(-1), TRUE) }
+       \* the part of the payload that did arrive may have been stored and counted before the connection ends
+       ELSE { OutcomeWild(cs, fsys, RNone, TRUE, {cs.wo.path}), OutcomeWild(cs, fsys, Res4(-1), TRUE, {cs.wo.path}),
+              OutcomeWild(cs, fsys, Res4(req.cut - CommandLen), TRUE, {cs.wo.path}) }
   ELSE { Outcome(cs, fsys, RNone, TRUE) }
 
 (***************************************************************************)
